@@ -150,11 +150,16 @@ pub fn generate(seed: u64, thorough: bool, sink: &mut Sink) -> Vec<String> {
   let mut cases = vec![];
   let n = if thorough { 25000 } else { 2500 };
   let names = ["Alpha", "Beta", "Gamma", "Delta"];
-  let pvars = ["x", "y", "z"];
+  let mut crng = Rng::new(seed ^ 0xc17c);
   for it in 0..n {
     if it % 4 == 3 { cases.push(gen_array_machine(&mut rng, sink)); continue; }
     let ninputs = 1 + rng.below(2) as usize;
     let inputs: Vec<&str> = ["a", "b"][..ninputs].to_vec();
+    // the names the patterns bind: in one machine in four one of them is also the name of an input
+    // (a pattern variable shadows the input inside its arm, and the binding stays once the arm was taken)
+    let mut pvars = ["x", "y", "z"];
+    let collide = crng.chance(1, 4);
+    if collide { let j = crng.below(3) as usize; pvars[j] = inputs[crng.below(ninputs as u64) as usize]; sink.hit("pattern-variable-named-like-an-input"); }
     let nstates = 1 + rng.below(4) as usize;
     let arity: Vec<usize> = (0..nstates).map(|_| 1 + rng.below(3) as usize).collect();
     // expression over the variables in scope
@@ -181,7 +186,7 @@ pub fn generate(seed: u64, thorough: bool, sink: &mut Sink) -> Vec<String> {
           else { let ti = rng.below(nstates as u64) as usize; let tname = if ill == 0 && rng.chance(1, 3) { "Zeta" } else { names[ti] };
                  let args: Vec<String> = (0..arity[ti]).map(|j| expr(rng, scope, j == 0)).collect(); format!("next {} {} {}", tname, arity[ti], args.join(" ")) } };
         // counter-style arm: count the first payload field down, then finish
-        let counter = rng.chance(1, 2) && pats[0] == "$x";
+        let counter = rng.chance(1, 2) && pats[0] == "$x";   // (a renamed first variable takes the general form)
         let body = if counter {
           let ti = rng.below(nstates as u64) as usize;
           let mut args: Vec<String> = vec![format!("bin sub var x lit {}", nu(1))];
@@ -200,7 +205,9 @@ pub fn generate(seed: u64, thorough: bool, sink: &mut Sink) -> Vec<String> {
         arms.push(format!("{} {} {} {}", names[si], k, pats.join(" "), body));
       }
     }
-    arms.push(if ill == 4 { format!("Done 1 $x d out lit s:{}", hexs("t")) } else { "Done 1 $x d out var x".to_string() });
+    arms.push(if ill == 4 { format!("Done 1 $x d out lit s:{}", hexs("t")) } else if collide && crng.chance(1, 2) { format!("Done 1 ${} d out var {}", inputs[0], inputs[0]) } else { "Done 1 $x d out var x".to_string() });
+    // the order in which the arms are written: one machine in three has them shuffled (the terminal arm may come first)
+    if crng.chance(1, 3) { for i in (1..arms.len()).rev() { let j = crng.below(i as u64 + 1) as usize; arms.swap(i, j); } sink.hit("arms-shuffled"); }
     let mut declared: Vec<String> = (0..nstates).map(|i| format!("{}:{}", names[i], arity[i])).collect();
     declared.push("Done:1".into());
     if ill == 1 { declared.insert(rng.below(declared.len() as u64 + 1) as usize, "Idle:1".into()); }
